@@ -129,12 +129,28 @@ func mathLdexp(L *LState) int {
 }
 
 func mathLog(L *LState) int {
-	L.Push(LNumber(math.Log(float64(L.CheckNumber(1)))))
+	L.Push(LNumber(logNormalized(float64(L.CheckNumber(1)))))
 	return 1
 }
 
+// logNormalized is math.Log, except that a subnormal argument is scaled into the normal range
+// first: the amd64 implementation of math.Log takes exponent and mantissa bits without
+// normalising them, which puts log(1e-320) off by 4 %.
+func logNormalized(x float64) float64 {
+	if x > 0 && x < 0x1p-1022 {
+		return math.Log(x*0x1p54) - 54*math.Ln2
+	}
+	return math.Log(x)
+}
+
 func mathLog10(L *LState) int {
-	L.Push(LNumber(math.Log10(float64(L.CheckNumber(1)))))
+	x := float64(L.CheckNumber(1))
+	if x > 0 && x < 0x1p-1022 {
+		// see logNormalized
+		L.Push(LNumber(math.Log10(x*0x1p54) - 54*(math.Ln2/math.Ln10)))
+		return 1
+	}
+	L.Push(LNumber(math.Log10(x)))
 	return 1
 }
 
